@@ -193,7 +193,7 @@ package store
 //@ iface (repo Repo) blobGet(d digest.Digest, locked bool) (rdr io.ReadSeekCloser, err error)
 //@   modifies ghost(fault), alloc, ghost(fswrites)
 //@   ensures [fs-policy]{C14} !fsWritable() ==> fswrites() == old(fswrites())
-//@   ensures [ok] err == nil ==> rdr != nil
+//@   ensures [ok] err == nil ==> rdr != nil && rdr.of == d
 //@   ensures [err] err != nil ==> rdr == nil
 
 //@ iface (repo Repo) blobMeta(d digest.Digest, locked bool) (m blobMeta, err error)
@@ -352,12 +352,110 @@ package store
 //@ -- ------------------------------------------------------------------
 //@ -- C05, step invariants of the collector (not the closure argument, see DESIGN.md 11): every child of a walked index
 //@ -- is queued, the config and every layer of a walked image are marked, and only unmarked blobs are removed.
+//@ -- The closure argument (C05, C06).  The collector keeps the set of (digest, kind) pairs it has read and decoded in its
+//@ -- map `walked` (kind 1: index, 2: image, 0: anything else).  What a stored manifest lists is named by ghost functions
+//@ -- that are *defined* by the one decode of that (digest, kind) in this collection (a pair is decoded at most once:
+//@ -- `walked` is set before the decode), see the assume clauses at the decode calls:
+//@ --   gcClean(x, k)      blob x was read, decoded as kind k and closed without error
+//@ --   gcIdxN/gcIdxChild/gcIdxChildKind   the children an index lists (digest, kind of its media type)
+//@ --   gcImgConfig/gcImgN/gcImgLayer      config and layers an image lists
+//@ --   gcReadable(x)      blobGet succeeds for x (assumed not to change during the mark phase)
+//@ ghost func gcReadable(d digest.Digest) bool
+//@ ghost func gcClean(d digest.Digest, k int) bool
+//@ ghost func gcIdxN(d digest.Digest) int
+//@ ghost func gcIdxChild(d digest.Digest, j int) digest.Digest
+//@ ghost func gcIdxChildKind(d digest.Digest, j int) int
+//@ ghost func gcImgConfig(d digest.Digest) digest.Digest
+//@ ghost func gcImgN(d digest.Digest) int
+//@ ghost func gcImgLayer(d digest.Digest, j int) digest.Digest
+//@ pred mtKind(mt) := (mt == types.MediaTypeDocker2ManifestList || mt == types.MediaTypeOCI1ManifestList) ? 1 :
+//@        ((mt == types.MediaTypeDocker2Manifest || mt == types.MediaTypeOCI1Manifest) ? 2 : 0)
+//@ -- a (digest, kind) pair is settled when it has been walked, is still on the work list, or cannot be read at all
+//@ pred queued(W, x, k) := exists p: int :: 0 <= p && p < len(W) && W[p].Digest == x && mtKind(W[p].MediaType) == k
+//@ pred settled(wd, W, x, k) := wd[keyOf(wd, x, k)] || queued(W, x, k) || !gcReadable(x)
+//@ -- the referrers response recorded for a subject x (if any) is settled / is on the work list
+//@ pred refSettled(sj, wd, W, x) := (x in sj) ==> settled(wd, W, sj[x].Digest, mtKind(sj[x].MediaType))
+//@ -- an index entry the policy retains whatever its age: it is not a referrers response, and it is tagged or untagged
+//@ -- collection is off (recent entries are retained too: that part is decided by the bounded stand-in, see DESIGN.md)
+//@ pred gcRoot(e, untagged) := types.subjOf(e) == "" && (types.tagOf(e) != "" || !untagged)
+//@ pred refQueued(sj, W, x) := (x in sj) ==> queued(W, sj[x].Digest, mtKind(sj[x].MediaType))
+
 //@ func repoGarbageCollect(repo Repo, conf config.Config, index types.Index, locked bool) (out types.Index, mod bool, err error)
 //@   requires [conf-defaulted] config.defaulted(conf)
+//@   requires [repo] repo != nil
+//@   assume [readable-is-stable] after "repo.blobGet(d.Digest, locked)": (ret1 == nil) <==> gcReadable(d#2.Digest)
+//@   assume [index-decoded-once] after "Decode(&man)"#1: ret == nil && br != nil && br.of == d#2.Digest ==> len(man.Manifests) == gcIdxN(d#2.Digest) &&
+//@             (forall k: int :: 0 <= k && k < len(man.Manifests) ==> man.Manifests[k].Digest == gcIdxChild(d#2.Digest, k) &&
+//@                mtKind(man.Manifests[k].MediaType) == gcIdxChildKind(d#2.Digest, k)) &&
+//@             (forall k: int :: {gcIdxChild(d#2.Digest, k)} 0 <= k && k < len(man.Manifests) ==> man.Manifests[k].Digest == gcIdxChild(d#2.Digest, k) &&
+//@                mtKind(man.Manifests[k].MediaType) == gcIdxChildKind(d#2.Digest, k)) &&
+//@             arr(man.Manifests) != arr(manifests)
+//@   assume [image-decoded-once] after "Decode(&man)"#2: ret == nil && br != nil && br.of == d#2.Digest ==> man#2.Config.Digest == gcImgConfig(d#2.Digest) &&
+//@             len(man#2.Layers) == gcImgN(d#2.Digest) &&
+//@             (forall k: int :: 0 <= k && k < len(man#2.Layers) ==> man#2.Layers[k].Digest == gcImgLayer(d#2.Digest, k)) &&
+//@             (forall k: int :: {gcImgLayer(d#2.Digest, k)} 0 <= k && k < len(man#2.Layers) ==> man#2.Layers[k].Digest == gcImgLayer(d#2.Digest, k)) &&
+//@             arr(man#2.Layers) != arr(manifests)
+//@   assume [clean-1] after "br.Close()"#1: (err#4 == nil && ret == nil) <==> gcClean(d#2.Digest, 1)
+//@   assume [clean-2] after "br.Close()"#2: (err#4 == nil && ret == nil) <==> gcClean(d#2.Digest, 2)
+//@   assume [clean-0] after "br.Close()"#3: (ret == nil) <==> gcClean(d#2.Digest, 0)
+//@   -- loop 1 puts every such entry on the work list; the mark loop keeps it settled
+//@   loop 1,2,3,4: invariant [index-apart]{C05} arr(index.Manifests) != arr(manifests)
+//@   loop 1: invariant [roots-queued]{C05} uses(call.Descriptor.Copy@*, 1:index-apart) forall k: int :: 0 <= k && k <= rangeindex && k < len(index.Manifests) && gcRoot(index.Manifests[k], *conf.Storage.GC.Untagged) ==>
+//@             queued(manifests, index.Manifests[k].Digest, mtKind(index.Manifests[k].MediaType))
+//@   loop 2,3,4: invariant [roots-settled]{C05} uses(assume.*, call.MediaTypeIndex@*, call.MediaTypeImage@*, call.Descriptor.Copy@*, call.Repo.blobGet@*, 2:maps, 3:maps, 4:maps, 2:roots-settled, 3:roots-settled, 4:roots-settled, 1:roots-queued, 1:index-apart, 2:index-apart, 3:index-apart, 4:index-apart) forall k: int :: 0 <= k && k < len(index.Manifests) && gcRoot(index.Manifests[k], *conf.Storage.GC.Untagged) ==>
+//@             settled(walked, manifests, index.Manifests[k].Digest, mtKind(index.Manifests[k].MediaType))
+//@   loop 2,3,4: invariant [maps]{C05} seen != nil && walked != nil
+//@   loop 2,4: invariant [walked-is-marked]{C05} forall wk: walkKey :: walked[wk] ==> seen[wk.dig]
+//@   loop 2: invariant [image-config-marked]{C05} forall x: digest.Digest :: {gcImgConfig(x)} walked[keyOf(walked, x, 2)] && gcClean(x, 2) ==> seen[gcImgConfig(x)]
+//@   loop 2: invariant [image-layers-marked]{C05} forall x: digest.Digest, j: int :: {gcImgLayer(x, j)} walked[keyOf(walked, x, 2)] && gcClean(x, 2) && 0 <= j && j < gcImgN(x) ==> seen[gcImgLayer(x, j)]
+//@   -- while the layers of the image at hand are being marked, the two statements hold for every other image
+//@   loop 4: invariant [image-config-marked]{C05} forall x: digest.Digest :: {gcImgConfig(x)} x != d#2.Digest && walked[keyOf(walked, x, 2)] && gcClean(x, 2) ==> seen[gcImgConfig(x)]
+//@   loop 4: invariant [image-layers-marked]{C05} forall x: digest.Digest, j: int :: {gcImgLayer(x, j)} x != d#2.Digest && walked[keyOf(walked, x, 2)] && gcClean(x, 2) && 0 <= j && j < gcImgN(x) ==> seen[gcImgLayer(x, j)]
+//@   -- every child of a walked index is settled; while the children of the index at hand are being queued this holds for
+//@   -- every other index, and for the children queued so far
+//@   loop 2,4: invariant [index-children-settled]{C05} uses(assume.*, call.MediaTypeIndex@*, call.MediaTypeImage@*, call.Descriptor.Copy@*, call.Repo.blobGet@*, 2:maps, 3:maps, 4:maps, 2:index-children-settled, 3:index-children-settled, 4:index-children-settled, 3:children-queued, 3:children-named, 3:children-apart) forall x: digest.Digest, j: int :: {gcIdxChild(x, j)} walked[keyOf(walked, x, 1)] && gcClean(x, 1) && 0 <= j && j < gcIdxN(x) ==>
+//@             settled(walked, manifests, gcIdxChild(x, j), gcIdxChildKind(x, j))
+//@   loop 3: invariant [index-children-settled]{C05} uses(assume.*, call.MediaTypeIndex@*, call.MediaTypeImage@*, call.Descriptor.Copy@*, call.Repo.blobGet@*, 2:maps, 3:maps, 4:maps, 2:index-children-settled, 3:index-children-settled, 4:index-children-settled, 3:children-queued, 3:children-named, 3:children-apart) forall x: digest.Digest, j: int :: {gcIdxChild(x, j)} x != d#2.Digest && walked[keyOf(walked, x, 1)] && gcClean(x, 1) && 0 <= j && j < gcIdxN(x) ==>
+//@             settled(walked, manifests, gcIdxChild(x, j), gcIdxChildKind(x, j))
 //@   loop 3: invariant [children-queued]{C05} forall k: int :: 0 <= k && k <= rangeindex && k < len(man.Manifests) ==>
-//@             exists j: int :: 0 <= j && j < len(manifests) && manifests[j].Digest == man.Manifests[k].Digest
+//@             exists j: int :: 0 <= j && j < len(manifests) && manifests[j].Digest == man.Manifests[k].Digest && mtKind(manifests[j].MediaType) == mtKind(man.Manifests[k].MediaType)
+//@   loop 3: invariant [children-apart]{C05} arr(man.Manifests) != arr(manifests)
+//@   loop 3: invariant [children-named]{C05} len(man.Manifests) == gcIdxN(d#2.Digest) &&
+//@             (forall k: int :: 0 <= k && k < len(man.Manifests) ==> man.Manifests[k].Digest == gcIdxChild(d#2.Digest, k) && mtKind(man.Manifests[k].MediaType) == gcIdxChildKind(d#2.Digest, k)) &&
+//@             (forall k: int :: {gcIdxChild(d#2.Digest, k)} 0 <= k && k < len(man.Manifests) ==> man.Manifests[k].Digest == gcIdxChild(d#2.Digest, k) && mtKind(man.Manifests[k].MediaType) == gcIdxChildKind(d#2.Digest, k))
+//@   -- the referrers response of everything that was walked, and of the config and layers of every walked image, is settled
+//@   loop 2: invariant [referrers-settled]{C05} uses(assume.*, call.MediaTypeIndex@*, call.MediaTypeImage@*, call.Descriptor.Copy@*, call.Repo.blobGet@*, 2:maps, 3:maps, 4:maps, 2:referrers-settled, 3:referrers-settled, 4:referrers-settled) forall wk: walkKey :: walked[wk] && gcClean(wk.dig, wk.kind) ==> refSettled(subjects, walked, manifests, wk.dig)
+//@   loop 3,4: invariant [referrers-settled]{C05} uses(assume.*, call.MediaTypeIndex@*, call.MediaTypeImage@*, call.Descriptor.Copy@*, call.Repo.blobGet@*, 2:maps, 3:maps, 4:maps, 2:referrers-settled, 3:referrers-settled, 4:referrers-settled) forall wk: walkKey :: wk.dig != d#2.Digest && walked[wk] && gcClean(wk.dig, wk.kind) ==> refSettled(subjects, walked, manifests, wk.dig)
+//@   loop 2,3: invariant [config-referrers-settled]{C05} uses(assume.*, call.MediaTypeIndex@*, call.MediaTypeImage@*, call.Descriptor.Copy@*, call.Repo.blobGet@*, 2:maps, 3:maps, 4:maps, 2:config-referrers-settled, 3:config-referrers-settled, 4:config-referrers-settled, 4:config-referrer-queued, 4:layers-named) forall x: digest.Digest :: {gcImgConfig(x)} walked[keyOf(walked, x, 2)] && gcClean(x, 2) ==> refSettled(subjects, walked, manifests, gcImgConfig(x))
+//@   loop 2,3: invariant [layer-referrers-settled]{C05} uses(assume.*, call.MediaTypeIndex@*, call.MediaTypeImage@*, call.Descriptor.Copy@*, call.Repo.blobGet@*, 2:maps, 3:maps, 4:maps, 2:layer-referrers-settled, 3:layer-referrers-settled, 4:layer-referrers-settled, 4:layer-referrers-queued, 4:layers-named) forall x: digest.Digest, j: int :: {gcImgLayer(x, j)} walked[keyOf(walked, x, 2)] && gcClean(x, 2) && 0 <= j && j < gcImgN(x) ==>
+//@             refSettled(subjects, walked, manifests, gcImgLayer(x, j))
+//@   loop 4: invariant [config-referrers-settled]{C05} uses(assume.*, call.MediaTypeIndex@*, call.MediaTypeImage@*, call.Descriptor.Copy@*, call.Repo.blobGet@*, 2:maps, 3:maps, 4:maps, 2:config-referrers-settled, 3:config-referrers-settled, 4:config-referrers-settled, 4:config-referrer-queued, 4:layers-named) forall x: digest.Digest :: {gcImgConfig(x)} x != d#2.Digest && walked[keyOf(walked, x, 2)] && gcClean(x, 2) ==> refSettled(subjects, walked, manifests, gcImgConfig(x))
+//@   loop 4: invariant [layer-referrers-settled]{C05} uses(assume.*, call.MediaTypeIndex@*, call.MediaTypeImage@*, call.Descriptor.Copy@*, call.Repo.blobGet@*, 2:maps, 3:maps, 4:maps, 2:layer-referrers-settled, 3:layer-referrers-settled, 4:layer-referrers-settled, 4:layer-referrers-queued, 4:layers-named) forall x: digest.Digest, j: int :: {gcImgLayer(x, j)} x != d#2.Digest && walked[keyOf(walked, x, 2)] && gcClean(x, 2) && 0 <= j && j < gcImgN(x) ==>
+//@             refSettled(subjects, walked, manifests, gcImgLayer(x, j))
+//@   loop 4: invariant [config-referrer-queued]{C05} refQueued(subjects, manifests, man#2.Config.Digest)
+//@   loop 4: invariant [layer-referrers-queued]{C05} forall k: int :: 0 <= k && k <= rangeindex && k < len(man#2.Layers) ==> refQueued(subjects, manifests, man#2.Layers[k].Digest)
 //@   loop 4: invariant [layers-marked]{C05} (seen != nil) && (forall k: int :: 0 <= k && k <= rangeindex && k < len(man#2.Layers) ==> seen[man#2.Layers[k].Digest])
 //@   loop 4: invariant [config-marked]{C05} seen[man#2.Config.Digest]
+//@   -- the decoder filled a zero value: the layer list it allocated is not the work list
+//@   loop 4: invariant [layers-apart]{C05} arr(man#2.Layers) != arr(manifests)
+//@   -- ... and is still what the decode produced
+//@   loop 4: invariant [layers-named]{C05} len(man#2.Layers) == gcImgN(d#2.Digest) && man#2.Config.Digest == gcImgConfig(d#2.Digest) &&
+//@             (forall k: int :: 0 <= k && k < len(man#2.Layers) ==> man#2.Layers[k].Digest == gcImgLayer(d#2.Digest, k)) &&
+//@             (forall k: int :: {gcImgLayer(d#2.Digest, k)} 0 <= k && k < len(man#2.Layers) ==> man#2.Layers[k].Digest == gcImgLayer(d#2.Digest, k))
+//@   -- when the work list is empty the marked set is closed: every retained root and everything a walked manifest lists
+//@   -- has been walked itself (and so is marked), or cannot be read at all; the least set closed under the retention rules
+//@   -- of the statement is then contained in the marked set (Knaster-Tarski step, stated in DESIGN.md, not mechanised)
+//@   assert [closed-roots]{C05} uses(assume.*, 2:maps, 2:roots-settled) before "repo.blobList(locked)": forall k: int :: 0 <= k && k < len(index.Manifests) && gcRoot(index.Manifests[k], *conf.Storage.GC.Untagged) ==>
+//@             walked[keyOf(walked, index.Manifests[k].Digest, mtKind(index.Manifests[k].MediaType))] || !gcReadable(index.Manifests[k].Digest)
+//@   assert [closed-children]{C05} uses(assume.*, 2:maps, 2:index-children-settled) before "repo.blobList(locked)": forall x: digest.Digest, j: int :: {gcIdxChild(x, j)} walked[keyOf(walked, x, 1)] && gcClean(x, 1) && 0 <= j && j < gcIdxN(x) ==>
+//@             walked[keyOf(walked, gcIdxChild(x, j), gcIdxChildKind(x, j))] || !gcReadable(gcIdxChild(x, j))
+//@   assert [closed-referrers]{C05} uses(assume.*, 2:maps, 2:referrers-settled) before "repo.blobList(locked)": forall wk: walkKey :: walked[wk] && gcClean(wk.dig, wk.kind) && (wk.dig in subjects) ==>
+//@             walked[keyOf(walked, subjects[wk.dig].Digest, mtKind(subjects[wk.dig].MediaType))] || !gcReadable(subjects[wk.dig].Digest)
+//@   assert [closed-part-referrers]{C05} uses(assume.*, 2:maps, 2:config-referrers-settled, 2:layer-referrers-settled) before "repo.blobList(locked)":
+//@             (forall x: digest.Digest :: {gcImgConfig(x)} walked[keyOf(walked, x, 2)] && gcClean(x, 2) && (gcImgConfig(x) in subjects) ==>
+//@                walked[keyOf(walked, subjects[gcImgConfig(x)].Digest, mtKind(subjects[gcImgConfig(x)].MediaType))] || !gcReadable(subjects[gcImgConfig(x)].Digest)) &&
+//@             (forall x: digest.Digest, j: int :: {gcImgLayer(x, j)} walked[keyOf(walked, x, 2)] && gcClean(x, 2) && 0 <= j && j < gcImgN(x) && (gcImgLayer(x, j) in subjects) ==>
+//@                walked[keyOf(walked, subjects[gcImgLayer(x, j)].Digest, mtKind(subjects[gcImgLayer(x, j)].MediaType))] || !gcReadable(subjects[gcImgLayer(x, j)].Digest))
 //@   assert [removes-only-unmarked-blobs]{C05} before "blobDelete(d, locked)": !seen[d#3]
 //@   assert [removes-only-unmarked-entries]{C05} before call Index.RmDesc#2: !seen[d#3]
 //@   assert [removes-only-blobless-entries]{C05} before call Index.RmDesc#1: !blobExists[d#4]
